@@ -197,6 +197,12 @@ void
 BitArrayT<NCapacity>::set() noexcept {
 	for (uint8_t& unit : _storage)
 		unit = UINT8_MAX;
+
+	// keep the unused bits of the last unit clear, empty() and operator != () look at whole units
+	constexpr Index tail = CAPACITY % 8;
+
+	if (tail != 0)
+		_storage[UNIT_COUNT - 1] = static_cast<uint8_t>((1 << tail) - 1);
 }
 
 // - - - - - - - - - - - - - - - - - - - - - - - - - - - - - - - - - - - - - - -
